@@ -63,16 +63,25 @@ class Case:
 
 
 def driver_path(variant="asan"):
-    return build.build_harness(variant, "driver", DRIVER_SOURCES)
+    srcs = DRIVER_SOURCES + (["steps.cpp"] if variant == "steps" else [])
+    return build.build_harness(variant, "driver", srcs)
 
 
 class HarnessFailure(Exception):
     pass
 
 
-def _run_chunk(exe, chunk, workdir, env):
+def _run_chunk(exe, chunk, workdir, env, stack_mb=None):
     data = b"".join(c.serialize() for c in chunk)
-    p = subprocess.run([exe, workdir], input=data, stdout=subprocess.PIPE, stderr=subprocess.PIPE, env=env)
+    pre = None
+    if stack_mb:
+        import resource
+
+        def pre():
+            lim = stack_mb * 1024 * 1024
+            resource.setrlimit(resource.RLIMIT_STACK, (lim, lim))
+    p = subprocess.run([exe, workdir], input=data, stdout=subprocess.PIPE, stderr=subprocess.PIPE, env=env,
+                       preexec_fn=pre)
     res = {}
     for line in p.stdout.split(b"\n"):
         if not line.strip():
@@ -89,7 +98,7 @@ def _run_chunk(exe, chunk, workdir, env):
     return res
 
 
-def run_cases(cases, variant="asan", jobs=16, chunk_size=None):
+def run_cases(cases, variant="asan", jobs=16, chunk_size=None, stack_mb=None):
     """Returns {case id: result dict}.  Raises HarnessFailure if a driver process dies outside a case."""
     if not cases:
         return {}
@@ -104,7 +113,7 @@ def run_cases(cases, variant="asan", jobs=16, chunk_size=None):
     results = {}
     try:
         with ThreadPoolExecutor(max_workers=jobs) as ex:
-            for r in ex.map(lambda ch: _run_chunk(exe, ch, workdir, env), chunks):
+            for r in ex.map(lambda ch: _run_chunk(exe, ch, workdir, env, stack_mb), chunks):
                 results.update(r)
     finally:
         subprocess.run(["rm", "-rf", workdir])
